@@ -3,7 +3,10 @@ Layer P (processes) — opening the same database file from several processes (C
 
 The steps follow `OpenOptions::open` / `DBInner::open` / `init_file` after the repair of D12: open the path
 (creating an empty file if there is none), take the exclusive advisory lock (blocking), initialise the
-file if it is still empty (allocate, write the four initial pages, sync), map it, read the header.  The
+file if it is still empty (allocate, write the four initial pages, sync), map it, read the header.  Only
+an EMPTY file (length 0) is initialised (`if file.metadata()?.len() == 0 { init_file(...) }`): a file that
+is not empty and holds no valid header (`FileSt.garbage`) is never overwritten, the opener fails
+("NO VALID META PAGES") and drops its handle, which releases the lock.  The
 lock is held until the handle is closed.  `stepPinned` is the order of the pinned release (exists-check,
 create + initialise, only then the lock), kept for the witness of the defect.  Advisory-lock semantics
 (one holder at a time, same host) are an assumption.
@@ -12,7 +15,8 @@ namespace Jamm
 
 inductive FileSt where
   | missing        -- no such file
-  | created        -- exists, not yet initialised (empty or zero-filled)
+  | created        -- exists and is empty (length 0)
+  | garbage        -- exists, is not empty, holds no valid header (e.g. left by a process that died while initialising it)
   | ready          -- holds valid header pages
   deriving DecidableEq, Repr
 
@@ -49,11 +53,12 @@ def ProcSys.step (s : ProcSys) (i : Nat) : ProcSys :=
     match ph with
     | .start =>
       if s.file = .missing then set .opened { s with file := .created }     -- open with create: an empty file
-      else set .opened s                                                     -- open the existing file
+      else set .opened s                                                     -- open the existing file (empty, garbage or ready) as it is
     | .creating => set .opened s                                             -- (phase of the pinned order only)
     | .opened => set .locked { s with lock := some i }
     | .locked =>
       if s.file = .ready then set (.inside s.commits) s                      -- map, read the header
+      else if s.file = .garbage then set .failed { s with lock := none }     -- not empty, no valid header: panic, handle dropped
       else set .locked { s with file := .ready }                             -- still empty: initialise it, under the lock
     | .inside n => set .closed { s with lock := none, commits := s.commits + 1 }  -- commit a marker, close
     | .closed => s
@@ -73,7 +78,8 @@ def ProcSys.stepPinned (s : ProcSys) (i : Nat) : ProcSys :=
     | .opened => set .locked { s with lock := some i }
     | .locked =>
       if s.file = .ready then set (.inside s.commits) s
-      else set .failed { s with lock := none }                               -- no valid header: panic, handle dropped
+      else if s.file = .garbage then set .failed { s with lock := none }     -- not empty, no valid header: panic, handle dropped
+      else set .failed { s with lock := none }                               -- empty, no valid header: panic, handle dropped
     | .inside n => set .closed { s with lock := none, commits := s.commits + 1 }
     | .closed => s
     | .failed => s
